@@ -96,15 +96,23 @@ CHECKS["C20"] = ("PARTIAL by nature: that emitted code type-checks is decided by
          "receiver; (2) three callables referring to generated locals must be rejected by rustc; (3) the inventory of the code derive::* emits for the same declarations: every global path rooted at ::darling, every binder a "
          "field, a double-underscore local listed in Options/Emit.v or a known inner-scope binder, no unqualified type / variant / macro name. The compiled corpora of C01 / C09 / C16 (233 receivers) are built by every check as well.",
          "Coq proof of the hygiene clause + compilation of generated receiver crates (rustc as oracle) + emitted-code inventory through derive::*")
-CHECKS["C01"] = (RECV + "The property is the executable per-FIELD specification Spec/C01.v `expected` (comprehensions over the input: no pass, no seen flags, no accumulator), evaluated in Coq on the value the real derived "
-         "code returned for 150 compiled corpus receivers x receiver-directed mistake-free inputs; model and code are compared on every case. Theorems so far: initial state; the loop-invariant theorems are in progress (see DESIGN.md).",
-         "Coq model + per-field executable specification evaluated on the implementation's output; per-run differential correspondence against compiled receivers")
-CHECKS["C02"] = (RECV + "The property is Spec/C01.v: parsing fails iff `expected` is undefined, and then the error has exactly `mistakes` leaves (literal items + unclaimed names + repeats + absent required items + leaves of rejected "
-         "values, recursively through nested receivers, enum variants and maps), evaluated on the real output for inputs with 0-8 injected mistakes.",
-         "Coq model + counting specification evaluated on the implementation's output; per-run differential correspondence against compiled receivers")
-CHECKS["C07"] = (RECV + "Theorems: every integer conversion and the default dispatchers are total for any non-panicking hooks. Every corpus receiver is run under catch_unwind on mistake-free, faulty and degenerate inputs "
-         "(empty / malformed lists, literals, deep nesting, 44-digit integers), from_none and nested-literal position, and compared with the model; panic-site inventory shared with C06.",
-         "Coq model + totality lemmas; per-run differential correspondence under catch_unwind; panic-site inventory")
+CHECKS["C01"] = (RECV + "Theorems (Run/LoopProofs.v, LevelProofs.v) for ANY field list, field-type implementers, user callables and EVERY item list: the item loop IS a per-field comprehension "
+         "(loop_is_spec: slot of field i = conversion of the first item addressed to it / all of them for `multiple`; flatten buffer = unaddressed items in order), a field's slot depends on its own occurrences only, "
+         "reordering across fields changes nothing, and when the level succeeds every field holds exactly its initialiser applied to its final slot (own occurrences, or unclaimed items for the flatten member, else the "
+         "type's value-for-absent, else its default). The property itself is the executable per-FIELD specification Spec/C01.v `expected`, evaluated in Coq on the value the real derived code returned for 166 compiled corpus "
+         "receivers x receiver-directed mistake-free inputs (all six traits: element-level receivers through C08 / C16's corpus); model and code are compared on every case.",
+         "Coq proof (loop invariant = per-field comprehension, for any converters) + per-field executable specification evaluated on the implementation's output; per-run differential correspondence against compiled receivers")
+CHECKS["C02"] = (RECV + "Theorems for ANY field list / implementers / callables and EVERY item list: the recorded errors are item by item what each item contributes given only its predecessors (literal, repeat, unaddressed name, "
+         "rejected value), exactly one error per mistaken item and none otherwise (count theorem), in input order; the loop never returns early; the level fails only through its single early return with the bundle of ALL "
+         "recorded errors (loop, flatten member, missing fields). The property is Spec/C01.v: parsing fails iff `expected` is undefined, and then the error has exactly `mistakes` leaves (recursively through nested receivers, "
+         "enum variants and maps), evaluated on the real output for inputs with 0-8 injected mistakes at every depth (incl. malformed nested lists).",
+         "Coq proof (per-item error comprehension, count theorem, single early return) + counting specification evaluated on the implementation's output; per-run differential correspondence against compiled receivers")
+CHECKS["C07"] = (RECV + "Theorems: for EVERY derived receiver type (structs, newtypes, unit structs, enums, Option / Box / darling::Result wrappers, nested to any depth) from_meta and from_list return a value or an error on "
+         "every meta item / item list (induction over the type universe), given total leaf targets and user callables and a declaration the derives accept; the struct level's `expect(\"Uninitialized fields...\")` is "
+         "unreachable (after the error check a slot is empty only if its field has a default); the leaf assumption is discharged for the plain library targets (unit, bool, AtomicBool, char, String, PathBuf, 24 integer types, "
+         "floats, Flag - whose unwrap_err can never meet an Ok - and Option / pointers / Result / maps over them); integer conversions and default dispatchers total. Every corpus receiver (FromMeta and element-level) is run "
+         "under catch_unwind on mistake-free, faulty and degenerate inputs (unions, empty enums, malformed lists at every depth, 44-digit integers) and compared with the model; panic-site inventory shared with C06.",
+         "Coq proof (induction over the receiver type universe; level invariant) + per-run differential correspondence under catch_unwind; panic-site inventory")
 PARTIAL = {"C20": " PARTIAL: rustc's type checking cannot be modelled in Coq here; the compile clause is observed on generated crates, the hygiene clause is proved.", "C07": " PARTIAL: stack exhaustion at extreme nesting and debug-build arithmetic overflow are run-time behaviour the model cannot exhibit; element-level entry points are covered by C08/C16's machinery."}
 def chk(pid):
     text, tech = CHECKS[pid]
